@@ -25,7 +25,7 @@ def split_edge(polyline : PolyLine, edge_ind: int) -> PolyLine:
     C = len(polyline.vertices)
     pC = (polyline.vertices[A]+polyline.vertices[B])/2
     polyline.vertices.append(pC)
-    polyline.edges[edge_ind] += keyify(A,C)
+    polyline.edges[edge_ind] = keyify(A,C)
     polyline.edges.append(keyify(B,C))
     polyline.connectivity.clear()
     return polyline
